@@ -105,11 +105,11 @@ class Registry:
         self.contracts[c.key] = c
         return c
 
-    def lemma(self, name, src, module, params, requires=(), props=(), note=""):
+    def lemma(self, name, src, module, params, requires=(), props=(), note="", **kw):
         """A lemma over contracts: `src` is a function body; calls are resolved through the callees'
         contracts (never their bodies); every `assert` must hold for all inputs."""
         c = Contract("<lemma>", name, types=params, requires=requires, props=props, note=note,
-                     lemma_src=src, lemma_module=module, cases=[Case("holds")])
+                     lemma_src=src, lemma_module=module, cases=[Case("holds")], **kw)
         c.lemma_params = list(params)
         self.contracts[c.key] = c
         return c
